@@ -31,7 +31,8 @@ type Param struct {
 	Opt    bool    `json:"opt"`
 	Group  int     `json:"group"`
 	Soft   bool    `json:"soft"`
-	NS     int     `json:"ns"` // group: consume through the declared named slice type NS<ty> (1) or NSB<ty> (2), ty < 3, instead of []T<ty>
+	Unexp  *int    `json:"unexp"` // obj: the dig.In is tagged ignore-unexported:"true" and an unexported field sits before field <unexp>
+	NS     int     `json:"ns"`    // group: consume through the declared named slice type NS<ty> (1) or NSB<ty> (2), ty < 3, instead of []T<ty>
 	Fields []Param `json:"fields"`
 }
 
@@ -271,7 +272,13 @@ func paramType(p Param) reflect.Type {
 		return groupSliceType(p.Ty, p.NS)
 	case "obj":
 		fields := []reflect.StructField{{Name: "In", Type: inType, Anonymous: true}}
+		if p.Unexp != nil {
+			fields[0].Tag = `ignore-unexported:"true"`
+		}
 		for i, f := range p.Fields {
+			if p.Unexp != nil && *p.Unexp == i {
+				fields = append(fields, reflect.StructField{Name: "hidden", PkgPath: "main", Type: reflect.TypeOf(0)})
+			}
 			var tags []string
 			switch f.K {
 			case "single":
@@ -388,18 +395,27 @@ func readArgs(p Param, v reflect.Value, out *[]Arg) {
 		}
 	case "group":
 		l := []Atom{}
+		shared := map[[3]int]int{}
 		for i := 0; i < v.Len(); i++ {
 			a := atomOf(v.Index(i))
 			if a == nil {
 				l = append(l, Atom{})
 			} else {
+				if len(*a) == 4 && (*a)[3] < 0 {
+					// one pointer submitted several times by a flattened result (Prov.Idx = -1):
+					// the k-th copy met is element k
+					k := [3]int{(*a)[0], (*a)[1], (*a)[2]}
+					cp := Atom{(*a)[0], (*a)[1], (*a)[2], shared[k]}
+					shared[k]++
+					a = &cp
+				}
 				l = append(l, *a)
 			}
 		}
 		*out = append(*out, Arg{L: l, IsL: true})
 	case "obj":
 		for i, f := range p.Fields {
-			readArgs(f, v.Field(i+1), out)
+			readArgs(f, v.FieldByName(fmt.Sprintf("F%d", i)), out)
 		}
 	}
 }
@@ -448,6 +464,15 @@ func mkResult(r Result, decorator bool, fn, exec int, lens []int, slot *int) ref
 		if r.Flatten || decorator {
 			n := lenAt(lens, s)
 			sl := reflect.MakeSlice(groupSliceType(r.Ty, nsIf(r.NS, decorator)), 0, n)
+			if tyOf(r.Ty).Kind() == reflect.Ptr && !decorator && n > 1 && (fn+exec)%2 == 0 {
+				// the SAME pointer n times: group members are counted per grouped result, not per
+				// distinct value (the copies are told apart by their position, see readArgs)
+				one := mkValue(tyOf(r.Ty), &Prov{fn, exec, s, -1})
+				for i := 0; i < n; i++ {
+					sl = reflect.Append(sl, one)
+				}
+				return sl
+			}
 			for i := 0; i < n; i++ {
 				sl = reflect.Append(sl, mkValue(tyOf(r.Ty), &Prov{fn, exec, s, i}))
 			}
@@ -887,6 +912,25 @@ func mainIDProbe() {
 			var dinfo dig.DecorateInfo
 			err = c.Decorate(poolFuncs[i], dig.FillDecorateInfo(&dinfo))
 			r = rec{Container: ci, Pool: i, Kind: "decorate", ID: int(dinfo.ID)}
+			if err != nil {
+				r.Err = "rejected"
+			}
+			out = append(out, r)
+		}
+	}
+	// the same function registered several times in ONE container (legal under different names or
+	// as a group member; also in a child scope): every accepted registration reports the same ID
+	shared := dig.New(dig.DeferAcyclicVerification())
+	child := shared.Scope("idchild")
+	for i := 0; i < len(poolFuncs); i++ {
+		for k, reg := range []func(interface{}, ...dig.ProvideOption) error{shared.Provide, shared.Provide, shared.Provide, child.Provide, child.Provide} {
+			var info dig.ProvideInfo
+			opt := []dig.ProvideOption{dig.Name(fmt.Sprintf("id%d", k))}
+			if k == 2 || k == 4 {
+				opt = []dig.ProvideOption{dig.Group("idgroup")}
+			}
+			err := reg(poolFuncs[i], append(opt, dig.FillProvideInfo(&info))...)
+			r := rec{Container: 2, Pool: i, Kind: fmt.Sprintf("provide-again-%d", k), ID: int(info.ID)}
 			if err != nil {
 				r.Err = "rejected"
 			}
